@@ -232,14 +232,18 @@ class _FPCore2FPy:
                 return cls(left, right, None)
         else:
             match e.name:
-                case 'fmin':
+                case 'fmin' | 'fmax':
+                    # C's fmin / fmax return the OTHER operand when one is
+                    # NaN; FPy's min / max (IEEE 754-2019 minimum / maximum)
+                    # return NaN:
+                    #   (fmax a b) => b if isnan(a) else (a if isnan(b) else max(a, b))
                     left = self._visit(e.children[0], ctx)
                     right = self._visit(e.children[1], ctx)
-                    return Min(None, (left, right), None)
-                case 'fmax':
-                    left = self._visit(e.children[0], ctx)
-                    right = self._visit(e.children[1], ctx)
-                    return Max(None, (left, right), None)
+                    cls = Min if e.name == 'fmin' else Max
+                    return IfExpr(
+                        IsNan(None, left, None), right,
+                        IfExpr(IsNan(None, right, None), left, cls(None, (left, right), None), None),
+                        None)
                 case _:
                     raise NotImplementedError(f'unsupported binary operation {e.name}')
 
